@@ -1180,9 +1180,23 @@ static void caseGibbs(Rng& r, Ctx& c, const Cfg& cfg)
           for (int j = 0; j < n; j++)
             Cm(iv * n + i, jv * n + j) = model->eval(P[i], P[j], iv, jv) * (1. - nug) + ((i == j && iv == jv) ? nug * model->eval(P[i], P[i], iv, iv) : 0.);
     ref::LU lu(Cm);
-    illcond = !lu.ok || lu.cond() > 1e8;
+    double kappa = lu.ok ? (double)lu.cond() : INFINITY;
+    illcond = !(kappa <= 1e8);
+    if (c.verbose) fprintf(stderr, "gibbs: condition number of the data covariance matrix %.3g\n", kappa);
+    c.putn("kappa", kappa);
   }
   if (illcond) c.skip("gibbs:bounds:illcond");
+  else
+  {
+    // a NaN / infinite output with return code 0 is reported once, under its own key (the bounds oracles would only repeat it)
+    int bad = 0;
+    for (auto& col : A.cols)
+      for (double v : col)
+        if (!std::isfinite(v)) bad++;
+    if (!c.truth("defined", K(cfg, std::string("nan-output") + (cfg.gMoving ? ":moving" : ":unique")), bad == 0,
+                 fmt("%d NaN / infinite values returned with return code 0", bad)))
+      illcond = true; // skip the bounds oracles below
+  }
   auto btype = [&](int iv, int i) -> std::string {
     if (i < 0) return "none";
     double lo = cfg.L[iv * n + i], up = cfg.U[iv * n + i];
